@@ -159,6 +159,10 @@ class Gen:
             alts = [(H.add(H.var(x), H.num(1)), None), (H.sub(H.var(x), H.num(self.r.choice([1, 2]))), None)]
             if self.coin(0.4):
                 alts.append((H.var(x), None))
+                if self.coin(0.5):
+                    # the alternative that keeps the variable need not be the last one
+                    self.r.shuffle(alts)
+                    self.features.add("choice-stay-not-last")
             if self.family == "param" and len(alts) == 2:
                 p = self.prob_expr()
                 return ("choice", [(alts[0][0], p), (alts[1][0], H.sub(H.num(1), p))])
@@ -328,6 +332,14 @@ class Gen:
                     rh.append(H.ex(H.add(H.var(rot[i]), H.mul(self.coef(), H.var(x)))))
                 else:
                     rh.append(H.ex(H.var(rot[i])))
+            if self.coin(0.35):
+                # a right side of the simultaneous assignment that is itself random (choice or draw): all right sides still read old values
+                i = r.randrange(len(xs))
+                if self.coin(0.6):
+                    rh[i] = ("choice", self._fill_probs([(H.add(H.var(rot[i]), H.num(1)), None), (H.var(rot[i]), None)]))
+                else:
+                    rh[i] = ("dist", "Bernoulli", [H.num(r.choice([Fr(1, 2), Fr(1, 3), Fr(3, 4)]))])
+                self.features.add("simult-random-rhs")
             body.append(("simult", xs, rh))
             self.features.add("simult")
             updates = [u for u in updates if self.coin(0.4)]
@@ -398,7 +410,16 @@ class Gen:
                 for b in range(nbranches):
                     inner = [self._perturb(s) for s in chunk] if b > 0 else chunk
                     inner = self.wrap_in_ifs(inner, depth + 1)
-                    branches.append((self.finite_cond(), inner))
+                    cnd = self.finite_cond()
+                    if self.coin(0.08):
+                        # the branch reassigns a variable of its own condition (the remaining statements of the branch and the
+                        # later branches must still see the condition as it was decided)
+                        cv = sorted(v for v in H.cond_vars(cnd) if v in self.fin) if hasattr(H, "cond_vars") else []
+                        if cv:
+                            v = r.choice(cv)
+                            inner = [H.assign(v, H.ex(H.num(r.choice(self.fin[v]))))] + list(inner)
+                            self.features.add("branch-reassigns-condition-variable")
+                    branches.append((cnd, inner))
                 els = []
                 if self.coin(0.5):
                     els = [self._perturb(s) for s in chunk[:1]]
